@@ -223,7 +223,7 @@ def step (l : Loop) (line : String) : Loop × List String :=
     let cfg : Cfg := {
       dim := dd.toNat!, pocca := !isPmr && b pocca, pocma := !isPmr && b pocma, pocs := !isPmr && b pocs, iae := !isPmr && b iae,
       socc := if isPmr then 2 else socc.toNat!, trivCtor := trivial, trivDtor := trivial, elemThrows := !trivial,
-      fx6 := fixes.contains "F6", fx7 := fixes.contains "F7", fx8 := fixes.contains "F8", fx9 := fixes.contains "F9" }
+      fx6 := fixes.contains "F6", fx7 := fixes.contains "F7", fx8 := fixes.contains "F8", fx9 := fixes.contains "F9", fx9a := fixes.contains "F9a", fx9c := fixes.contains "F9c" }
     ({ l with d := { l.d with cfg := cfg, observe := !trivial } }, [])
   | ["fault", k] =>
     ({ l with d := { l.d with st := { l.d.st with fuel := k.toNat? } } }, [])
